@@ -433,6 +433,23 @@ func c09Run(c *fw.Ctx) error {
 			}
 		}
 	}
+	// chains of one associative operator: the three groupings are compared by what they yield (the trees differ by design)
+	chainOperands := []string{".", ".a", ".b", ".c"}
+	for _, op := range []string{",", "|", "and", "or", "//"} { // (+ and * are associative only among operands of one kind)
+		for _, x := range chainOperands {
+			for _, y := range chainOperands {
+				for _, z := range chainOperands {
+					if x == y || y == z || x == z {
+						continue // (`. , .` is a listed finding of C01)
+					}
+					right := x + " " + op + " (" + y + " " + op + " " + z + ")"
+					do(c09Case{Kind: "same-result", A: "(" + x + " " + op + " " + y + ") " + op + " " + z, B: right}, "chain-grouping/"+op, 7.5e6)
+					do(c09Case{Kind: "same-result", A: x + " " + op + " " + y + " " + op + " " + z, B: right}, "chain-grouping/"+op, 7.5e6)
+					do(c09Case{Kind: "same-result", A: "[(" + x + " " + op + " " + y + ") " + op + " " + z + "]", B: "[" + right + "]"}, "chain-grouping/"+op, 7.5e6)
+				}
+			}
+		}
+	}
 	// layout: insertions at every token boundary (bound 1, then 2), redundant parentheses
 	for ei, toks := range c09LayoutExprs {
 		canon := strings.Join(toks, " ")
